@@ -51,7 +51,14 @@ def acquire_slot():
     import fcntl
     base = os.path.join(WORK, 'ktarget')
     os.makedirs(base, exist_ok=True)
+    waited = 0
     while True:
+        # CBMC needs 1-10 GB per harness: do not start another one while memory is short (avoids OOM kills,
+        # which would end a harness without a verdict)
+        if mem_available_gb() < 8 and waited < 900:
+            time.sleep(5)
+            waited += 5
+            continue
         for i in range(NSLOTS):
             f = open(os.path.join(base, 'slot%d.lock' % i), 'w')
             try:
@@ -60,6 +67,16 @@ def acquire_slot():
             except OSError:
                 f.close()
         time.sleep(1.0)
+
+
+def mem_available_gb():
+    try:
+        for ln in open('/proc/meminfo'):
+            if ln.startswith('MemAvailable:'):
+                return int(ln.split()[1]) / 1048576.0
+    except OSError:
+        pass
+    return 64.0
 
 
 def release_slot(f):
